@@ -235,6 +235,8 @@ func main() {
 	r.Require("alias_before_change/nodata-soa/nodata-with-soa", nf/4)
 	r.Require("alias_before_change/nodata-bare/nodata-bare", nf/4)
 	r.Require("alias_after_bound_repoint_new_answer", nf)
+	r.Require("alias_derived_from_cached_target", nf)
+	r.Require("after_kind/alias-target", nf)
 	r.Finish(rule)
 }
 
@@ -993,6 +995,13 @@ func grant0(sc *Scenario) time.Duration {
 // aliasProbes asks every alias of the sibling zone (none outside focus scenarios).
 func (w *world) aliasProbes(rng *rand.Rand) []probe {
 	var ps []probe
+	if w.sc.Alias != nil && w.sc.Alias.TargetsFirst {
+		for _, a := range w.aliases {
+			if a.Shape != "deep-positive" {
+				ps = append(ps, probe{Name: a.Target, Type: dns.TypeA, DO: rng.IntN(3) != 0, Kind: "alias-target", Level: a.Level})
+			}
+		}
+	}
 	for _, a := range w.aliases {
 		ps = append(ps, probe{Name: a.Name, Type: dns.TypeA, DO: rng.IntN(3) != 0, Kind: "alias", Level: a.Level})
 	}
@@ -1018,6 +1027,17 @@ func (run *runner) aliasSeen(w *world, phase string, p probe, res result) {
 		return
 	}
 	r := run.r
+	if w.sc.Alias.TargetsFirst && !w.changed && phase != "after_bound" {
+		// the alias was derived without any upstream question about its target:
+		// the target came from the cache
+		asked := false
+		for _, pk := range w.u.Log.Since(res.from) {
+			asked = asked || pk.QNameL == strings.ToLower(a.Target)
+		}
+		if !asked {
+			r.Count("alias_derived_from_cached_target", 1)
+		}
+	}
 	if phase == "after_bound" {
 		r.Count("alias_after_bound/"+a.Shape, 1)
 		if w.sc.Mode == "repoint" && w.newTruth(p, res.reply) == "new-answer" {
